@@ -5,6 +5,7 @@ package internal
 import (
 	"fmt"
 	"sort"
+	"sync/atomic"
 	"testing"
 	"time"
 
@@ -151,20 +152,21 @@ type plCall struct {
 }
 
 type plRun struct {
-	c        plCase
-	x        *verifkit.Ctx
-	s        *Store[int, int]
-	pool     []WriteBufItem[int, int]
-	poolInc  []*plInc // incarnation each pending event was issued for
-	lastInc  *plInc
-	seq      int
-	incs     []*plInc
-	resident map[int]*plInc // by key
-	byVal    map[int]*plInc
-	calls    []plCall // listener calls of the current step
-	allCalls int
-	stored   int
-	step     int
+	c              plCase
+	x              *verifkit.Ctx
+	s              *Store[int, int]
+	pool           []WriteBufItem[int, int]
+	poolInc        []*plInc // incarnation each pending event was issued for
+	staleDelivered bool     // an event was applied to an Entry object that had gone back to the entry pool
+	lastInc        *plInc
+	seq            int
+	incs           []*plInc
+	resident       map[int]*plInc // by key
+	byVal          map[int]*plInc
+	calls          []plCall // listener calls of the current step
+	allCalls       int
+	stored         int
+	step           int
 	// oracles
 	accounting bool // C02
 	notify     bool // C05
@@ -215,6 +217,7 @@ func (r *plRun) deliver(i int) *verifkit.Failure {
 		}
 	}
 	if r.staleForPooled(i) {
+		r.staleDelivered = true
 		r.x.Class("stale-event-for-pooled-entry")
 		if verifkit.Avoid("C05-pool-stale-event") {
 			r.x.Exclude("C05-pool-stale-event")
@@ -396,6 +399,15 @@ func (r *plRun) quiesce(order []int) *verifkit.Failure {
 			return f
 		}
 	}
+	// what Wait does once the queue is empty: one more (empty) batch goes through drainWrite
+	r.s.policyMu.Lock()
+	r.s.writeBuffer = r.s.writeBuffer[:0]
+	r.s.drainWrite()
+	r.s.policyMu.Unlock()
+	r.collect()
+	if f := r.afterStep("deliver", -1); f != nil {
+		return f
+	}
 	return r.quiescent()
 }
 
@@ -477,17 +489,30 @@ func execPipeline(c plCase, x *verifkit.Ctx, accounting, notify, reclaim bool) *
 		return execPipelineInner(c, x, accounting, notify, reclaim)
 	}
 	// with the entry pool a corrupted region size can make the eviction loop spin: watchdog
-	return vkWatch(20*time.Second, "pipeline/hang", func() *verifkit.Failure {
+	f := vkWatch(20*time.Second, "pipeline/hang", func() *verifkit.Failure {
 		return execPipelineInner(c, x, accounting, notify, reclaim)
 	})
+	if f != nil && f.Sig == "pipeline/hang" {
+		if r := plLastRun.Load(); r != nil && r.staleDelivered {
+			f.Sig = "pool-stale-event/" + f.Sig
+		}
+	}
+	return f
 }
+
+var plLastRun atomic.Pointer[plRun]
 
 func execPipelineInner(c plCase, x *verifkit.Ctx, accounting, notify, reclaim bool) (fail *verifkit.Failure) {
 	r := &plRun{c: c, x: x, resident: map[int]*plInc{}, byVal: map[int]*plInc{}, accounting: accounting, notify: notify, reclaim: reclaim}
+	plLastRun.Store(r)
 	defer func() {
 		VerifExpireYieldFn = nil
 		if rec := recover(); rec != nil {
 			fail = verifkit.Failf("pipeline/panic", "step %d: panic: %v", r.step, rec)
+		}
+		if fail != nil && r.staleDelivered {
+			// everything that goes wrong after that is a manifestation of known finding C05-pool-stale-event
+			fail.Sig = "pool-stale-event/" + fail.Sig
 		}
 	}()
 	vkResetWall()
